@@ -295,7 +295,7 @@ func RunE6(env *Env, job *E1Job) *E1Res {
 		}
 		st.OpenCaches = 0
 		acc := job.HFlags & 3
-		ref.readable = acc == os.O_RDONLY || acc == os.O_RDWR
+		ref.readable = acc == os.O_RDONLY || acc == os.O_RDWR || (acc == os.O_WRONLY && job.Cfg.WPIR)
 		ref.writable = acc == os.O_WRONLY || acc == os.O_RDWR
 		ref.appendM = job.HFlags&os.O_APPEND != 0
 		if job.HFlags&os.O_TRUNC != 0 && ref.writable {
